@@ -1,6 +1,7 @@
 import Solvor.Common.Proto
 import Solvor.Lp.Model
 import Solvor.Lp.Milp
+import Solvor.Lp.Bnb
 /-! Lp: line-protocol handler.
 
 request `["lp", c, A, b, minimize, eps, maxIter, tol, vtol, lpImpl, ipmImpl, ipmTolFeas, ipmTolObj, ipmResid, ipmUlp]`
@@ -123,10 +124,24 @@ def handleMilp (args : List Val) : Option String := do
         Val.arr [.bool (feas x), .bool objOk, .arr (sols.map fun s => .bool (feas s))]
   pure (Val.arr [relax, oracle, .arr checks]).render
 
+/-! request `["bnb", c, A, b, ints, minimize, eps, maxIter, maxNodes, gapTol, solutionLimit, warm | null]`
+  (`ints` ascending = CPython's iteration order of a set of small non-negative ints)
+reply `[status, x | null, obj | null, nodes, sols, near, nodesOk]` : the mirror `solveMilp` of `solve_milp(heuristics=False)` -/
+def handleBnb (args : List Val) : Option String := do
+  let [c, A, b, ints, mn, eps, mi, mxn, gap, sl, warm] := args | none
+  let c ← c.toRats?; let A ← A.toRatss?; let b ← b.toRats?; let ints ← ints.toNats?
+  let mn ← mn.toBool?; let eps ← eps.toRat?; let mi ← mi.toNat?; let mxn ← mxn.toNat?
+  let gap ← gap.toRat?; let sl ← sl.toNat?
+  let warm ← warm.toOpt? Val.toRats?
+  let o := solveMilp ⟨c, A, b, ints, mn⟩ ⟨eps, mi, mxn, gap, sl, warm⟩
+  pure (Val.arr [.str o.status.name, .ofOpt .ofRats o.x, .ofOpt .ofRat o.objective, .int o.nodes,
+    .arr (o.sols.map .ofRats), .bool o.near, .bool o.ok]).render
+
 def handle (line : String) : String :=
   match request line with
   | some ("lp", args) => (handleLp args).getD (err "bad arguments")
   | some ("milp", args) => (handleMilp args).getD (err "bad arguments")
+  | some ("bnb", args) => (handleBnb args).getD (err "bad arguments")
   | _ => err "bad request"
 
 end Solvor.Lp
